@@ -598,6 +598,30 @@ func streamNoPanic(c *ctx) {
 			}
 		}
 	}
+	// every curve number (those of the other families included) with the algorithm absent or naming any signature /
+	// key-agreement algorithm, on each key that has a curve: the constructors of every family get all of them
+	for i := 0; i < nk; i++ {
+		if !keys[i].Has(iana.EC2KeyParameterCrv) {
+			continue
+		}
+		for crv := 0; crv <= 9; crv++ {
+			for _, av := range []any{nil, -7, -35, -36, -8, -47, -25, 1} {
+				k2 := cloneKey(keys[i])
+				k2[iana.EC2KeyParameterCrv] = crv
+				if av == nil {
+					delete(k2, iana.KeyParameterAlg)
+				} else {
+					k2[iana.KeyParameterAlg] = av
+				}
+				keys = append(keys, k2)
+				if crv >= 6 && av == nil { // and with the other key type
+					k3 := cloneKey(k2)
+					k3[iana.KeyParameterKty] = 3 - toIntOr(k3[iana.KeyParameterKty], 1)
+					keys = append(keys, k3)
+				}
+			}
+		}
+	}
 	keys = append(keys, key.Key{}, key.Key{1: nil}, key.Key{"1": 4}, key.Key{int64(1): 4, 3: 5}, key.Key{1: 4, -1: nil}, key.Key{1: 2, -1: 1, -2: nil, -3: nil}, key.Key{1: 1, -1: 6, -4: nil})
 	for _, k := range keys {
 		k := k
@@ -700,4 +724,11 @@ func streamNoPanic(c *ctx) {
 		q = append(q, `"`+n+`"`)
 	}
 	c.addCase("ApiCovered ["+strings.Join(q, "; ")+"]%string", "coverage of the API inventory")
+}
+
+func toIntOr(v any, d int) int {
+	if i, ok := v.(int); ok {
+		return i
+	}
+	return d
 }
